@@ -4446,8 +4446,6 @@ impl BytecodeVM {
                 let method_val = self.get_reg(method);
                 let key_val = self.get_reg(key);
 
-                // Convert key to string for property name
-                let method_name = interp.to_js_string(key_val);
 
                 // Store __super__ and __super_target__ on method for super access
                 if let JsValue::Object(method_obj) = &method_val {
@@ -4477,8 +4475,8 @@ impl BytecodeVM {
                     }
                 }
 
-                // Use from_value to handle numeric string keys correctly (e.g., "2" -> Index(2))
-                let prop_key = interp.property_key_from_value(&JsValue::String(method_name));
+                // A symbol stays a symbol ([Symbol.iterator]() {}), numeric keys become indices
+                let prop_key = interp.property_key_from_value(&key_val);
 
                 if is_static {
                     // Add to class constructor directly
@@ -4520,8 +4518,6 @@ impl BytecodeVM {
                 let setter_val = self.get_reg(setter);
                 let key_val = self.get_reg(key);
 
-                // Convert key to string for accessor name
-                let accessor_name = interp.to_js_string(key_val);
 
                 // Extract function objects (undefined means keep existing)
                 let new_getter = if let JsValue::Object(g) = getter_val {
@@ -4550,8 +4546,8 @@ impl BytecodeVM {
                 };
 
                 // Get existing accessor property if any
-                // Use from_value to handle numeric string keys correctly (e.g., "2" -> Index(2))
-                let prop_key = interp.property_key_from_value(&JsValue::String(accessor_name));
+                // A symbol stays a symbol, numeric keys become indices
+                let prop_key = interp.property_key_from_value(&key_val);
                 let (existing_getter, existing_setter) = {
                     let target_ref = target.borrow();
                     if let Some(prop) = target_ref.properties.get(&prop_key) {
